@@ -420,4 +420,62 @@ theorem getline_operand_denied (f : Flags) (hr : f.noReads = true) (s : St) (hc 
   subst h1 h2
   simp
 
+/-! ### operands that name standard input only -/
+
+theorem nextOperand_onlyStdin (f f' : Flags) : ∀ (l : List Bytes) (s : St), onlyStdin l = true →
+    nextOperand f s l = nextOperand f' s l ∧ onlyStdin (nextOperand f s l).2.1.args = true ∧
+    (∀ e, (nextOperand f s l).2.2 ≠ .err e) ∧ (∀ e ∈ (nextOperand f s l).1, e = .useStdin) := by
+  intro l
+  induction l with
+  | nil =>
+    intro s _
+    by_cases hf : s.hadFiles = true <;> by_cases hz : s.stdinRecs = 0 <;> simp [nextOperand, hf, hz, onlyStdin]
+  | cons a rest ih =>
+    intro s h
+    have hr : onlyStdin rest = true := by
+      simp only [onlyStdin, List.all_cons, Bool.and_eq_true] at h ⊢; exact h.2
+    have ha : a = [] ∨ a = dash := by
+      simp only [onlyStdin, List.all_cons, Bool.and_eq_true, Bool.or_eq_true, beq_iff_eq] at h; exact h.1
+    rcases ha with rfl | rfl
+    · simpa [nextOperand] using ih s hr
+    · by_cases hz : s.stdinRecs = 0
+      · have := ih { s with hadFiles := true, cur := 0, stdinRecs := 0 } hr
+        simp only [nextOperand, dash, hz] at this ⊢
+        simp only [show ([45] : Bytes) ≠ [] by decide, if_false, if_true]
+        refine ⟨by rw [this.1], this.2.1, this.2.2.1, ?_⟩
+        intro e he
+        rcases List.mem_cons.mp he with rfl | he
+        · rfl
+        · exact this.2.2.2 e he
+      · simp [nextOperand, dash, hz, hr]
+
+theorem nextLine_onlyStdin (f f' : Flags) (s : St) (h : onlyStdin s.args = true) :
+    nextLine f s = nextLine f' s ∧ onlyStdin (nextLine f s).2.1.args = true ∧
+    (∀ e, (nextLine f s).2.2 ≠ .err e) ∧ (∀ e ∈ (nextLine f s).1, e = .useStdin) := by
+  by_cases hc : s.cur > 0
+  · simp [nextLine, hc, h]
+  · simpa [nextLine, hc] using nextOperand_onlyStdin f f' s.args s h
+
+theorem mainLoop_onlyStdin (f f' : Flags) : ∀ (fuel : Nat) (s : St), onlyStdin s.args = true →
+    mainLoop f fuel s = mainLoop f' fuel s ∧ (∀ e ∈ (mainLoop f fuel s).1, e = .useStdin) := by
+  intro fuel
+  induction fuel with
+  | zero => intro s _; simp [mainLoop]
+  | succ n ih =>
+    intro s h
+    obtain ⟨heq, hargs, hne, hes⟩ := nextLine_onlyStdin f f' s h
+    rw [mainLoop, mainLoop, ← heq]
+    rcases hnl : nextLine f s with ⟨es, s', r⟩
+    rw [hnl] at hargs hne hes
+    cases r with
+    | record =>
+      have := ih s' hargs
+      simp only [this.1, true_and]
+      intro e he
+      rcases List.mem_append.mp he with he | he
+      · exact hes e he
+      · exact this.2 e (by rw [this.1]; exact he)
+    | eof => exact ⟨rfl, hes⟩
+    | err e => exact absurd rfl (hne e)
+
 end GoawkModel.C12
